@@ -10,7 +10,7 @@ from flax.nnx.transforms import iteration as IT, autodiff as AD
 from harness.common import qualnames
 from harness import graphs as GR
 from vf.ob import Ob
-from vf.xh import I, B, Reject, pick
+from vf.xh import with_real_dicts, I, B, Reject, pick
 
 AXES = [None, 0, 1, nnx.Carry]
 # (constructor, reference predicate(path, variable))
@@ -95,6 +95,157 @@ def aliasing_rejected(second, a_first, a_second, f_first, s0, d0, h0):
   except ValueError as e:
     return inconsistent and 'Inconsistent aliasing' in str(e)
   return not inconsistent
+
+
+# ------------------------------------------------------------------ vmap == per index
+from harness import arr as AR
+from harness.arr import Arr
+
+
+class _VLax:
+  scan = staticmethod(AR.ref_lax_scan)
+
+  def __getattr__(self, name):
+    return getattr(jax.lax, name)
+
+
+class _VJax:
+  vmap = staticmethod(AR.ref_vmap)
+  lax = _VLax()
+  Array = Arr                       # `isinstance(x, (jax.Array, np.ndarray))` checks
+
+  def __getattr__(self, name):
+    return getattr(jax, name)
+
+
+class _VJnp:
+  moveaxis = staticmethod(AR.moveaxis)
+
+  def __getattr__(self, name):
+    import jax.numpy as jnp
+    return getattr(jnp, name)
+
+
+class VmapEnv:
+  def __enter__(self):
+    self.saved = (IT.jax, IT.jnp)
+    IT.jax, IT.jnp = _VJax(), _VJnp()
+    return self
+
+  def __exit__(self, *a):
+    IT.jax, IT.jnp = self.saved
+    return False
+
+
+class VM(nnx.Module):
+  def __init__(self, w, c, k):
+    self.w = nnx.Param(w)
+    self.c = nnx.BatchStat(c)
+    self.sub = GR.Mod('sub')
+    self.sub.k = nnx.Param(k)        # a second Param, deeper in the graph
+
+
+VAX = [0, 1, None]
+
+
+@with_real_dicts
+def vmap_like_per_index(pa, sa, xa, oa, use_state_axes, x0, x1, x2, x3, x4, x5, w0, w1,
+                        c0, k0):
+  """nnx.vmap == calling the function once per index on the per-index slice of every
+  state group that has an axis, None groups shared; per-index updates end up stacked
+  in the caller's own objects; outputs stacked along out_axes"""
+  n = 3
+  p_axis, s_axis = pick(VAX, pa), pick([0, 1], sa)
+  x_axis = pick(VAX, xa)
+  if not use_state_axes:
+    # one int for the whole module
+    if p_axis is None or p_axis != s_axis:
+      raise Reject()
+  rows = [Arr([x0, x1], (2,)), Arr([x2, x3], (2,)), Arr([x4, x5], (2,))]
+  x = rows[0] if x_axis is None else Arr.stack(rows, x_axis)
+  xi = (lambda i: rows[0]) if x_axis is None else (lambda i: rows[i])
+  ws = [Arr([w0 + i, w1 - i], (2,)) for i in range(n)]
+  cs = [Arr([c0 + 2 * i], (1,)) for i in range(n)]
+  ks = [Arr([k0 - i], (1,)) for i in range(n)]
+  stack = lambda items, ax: items[0] if ax is None else Arr.stack(items, ax)
+  m = VM(stack(ws, p_axis), Arr.stack(cs, s_axis), stack(ks, p_axis))
+  seen = []
+
+  def f(m_, x_):
+    seen.append((m_.w.value.shape, m_.c.value.shape, x_.shape))
+    xs = x_.sum()
+    m_.c.value = m_.c.value + xs
+    return Arr([m_.w.value.at((0,)) * xs + m_.sub.k.value.at((0,)),
+                xs + m_.c.value.at((0,))], (2,))
+  axes = nnx.StateAxes({nnx.Param: p_axis, nnx.BatchStat: s_axis}) \
+      if use_state_axes else p_axis
+  ids = (id(m), id(m.w), id(m.c), id(m.sub))
+  with VmapEnv():
+    y = nnx.vmap(f, in_axes=(axes, x_axis), out_axes=oa,
+                 axis_size=None)(m, x)
+  wi = (lambda i: ws[0]) if p_axis is None else (lambda i: ws[i])
+  ki = (lambda i: ks[0]) if p_axis is None else (lambda i: ks[i])
+  new_c = [cs[i] + xi(i).sum() for i in range(n)]
+  want_y = Arr.stack([Arr([wi(i).at((0,)) * xi(i).sum() + ki(i).at((0,)),
+                           xi(i).sum() + new_c[i].at((0,))], (2,))
+                      for i in range(n)], oa)
+  if not want_y.same(y):
+    return False
+  if any(s != ((2,), (1,), (2,)) for s in seen) or len(seen) != n:
+    return False
+  # the caller's own objects carry the stacked per-index updates; the rest is intact
+  if ids != (id(m), id(m.w), id(m.c), id(m.sub)):
+    return False
+  return (Arr.stack(new_c, s_axis).same(m.c.value) and stack(ws, p_axis).same(
+      m.w.value) and stack(ks, p_axis).same(m.sub.k.value))
+
+
+@with_real_dicts
+def scan_like_loop(pa, xa, oa, reverse, carry_stat, x0, x1, x2, w0, w1, c0, k0, s0):
+  """nnx.scan == the Python loop: Carry threaded, the Param group sliced per step
+  along its axis, the BatchStat group carried (each step sees the previous update)
+  or sliced, outputs stacked in index order for either direction; the caller's own
+  objects end in the loop's final state"""
+  n = 3
+  p_axis, x_axis = pick([0, 1], pa), pick([0, 1], xa)
+  xv = [x0, x1, x2]
+  x = Arr.stack([Arr([v], (1,)) for v in xv], x_axis)
+  ws = [Arr([w0 + i, w1 - i], (2,)) for i in range(n)]
+  ks = [Arr([k0 - i], (1,)) for i in range(n)]
+  cs = [Arr([c0 + 2 * i], (1,)) for i in range(n)]
+  m = VM(Arr.stack(ws, p_axis), Arr([c0], (1,)) if carry_stat else Arr.stack(cs, 0),
+         Arr.stack(ks, p_axis))
+
+  def f(carry, m_, x_):
+    xs = x_.at((0,))
+    m_.c.value = m_.c.value * 2 + xs               # order sensitive when carried
+    new = carry * 3 + xs + m_.w.value.at((0,))
+    return new, Arr([xs + m_.c.value.at((0,)) + m_.sub.k.value.at((0,)),
+                     new.at((0,))], (2,))
+  axes = nnx.StateAxes({nnx.Param: p_axis,
+                        nnx.BatchStat: nnx.Carry if carry_stat else 0})
+  ids = (id(m), id(m.w), id(m.c), id(m.sub))
+  with VmapEnv():
+    cf, ys = nnx.scan(f, in_axes=(nnx.Carry, axes, x_axis),
+                      out_axes=(nnx.Carry, oa), reverse=bool(reverse))(
+                          Arr([s0], (1,)), m, x)
+  carry, c, rys = s0, c0, [None] * n
+  newc = list(cs)
+  for i in (range(n - 1, -1, -1) if reverse else range(n)):
+    if carry_stat:
+      c = c * 2 + xv[i]
+      cv = c
+    else:
+      cv = cs[i].at((0,)) * 2 + xv[i]
+      newc[i] = Arr([cv], (1,))
+    carry = carry * 3 + xv[i] + ws[i].at((0,))
+    rys[i] = Arr([xv[i] + cv + ks[i].at((0,)), carry], (2,))
+  if not Arr([carry], (1,)).same(cf) or not Arr.stack(rys, oa).same(ys):
+    return False
+  if ids != (id(m), id(m.w), id(m.c), id(m.sub)):
+    return False
+  want_c = Arr([c], (1,)) if carry_stat else Arr.stack(newc, 0)
+  return want_c.same(m.c.value) and Arr.stack(ws, p_axis).same(m.w.value)
 
 
 def _norm(a):
@@ -215,6 +366,97 @@ def grad_wrt_routing(fi, use_diffstate, s0, d0, h0, x):
   return got == want
 
 
+# ------------------------------------------------------------------ grad values
+from harness import refad as RAD
+
+
+def _ref_value_and_grad(return_value):
+  def transform(fn, argnums=0, has_aux=False, holomorphic=False, allow_int=False,
+                reduce_axes=()):
+    def run(*args):
+      idx = (argnums,) if isinstance(argnums, int) else tuple(argnums)
+
+      def fsel(*sel):
+        full = list(args)
+        for i, a in zip(idx, sel):
+          full[i] = a
+        return fn(*full)
+      out = RAD.ref_vjp(fsel, *[args[i] for i in idx], has_aux=has_aux)
+      y, bwd = out[0], out[1]
+      g = bwd(RAD.ones_like(y))
+      g = g[0] if isinstance(argnums, int) else tuple(g)
+      if return_value:
+        return ((y, out[2]) if has_aux else y), g
+      return (g, out[2]) if has_aux else g
+    return run
+  return transform
+
+
+class RefGradEnv:
+  def __enter__(self):
+    self.saved = AD.jax
+
+    class P:
+      grad = staticmethod(_ref_value_and_grad(False))
+      value_and_grad = staticmethod(_ref_value_and_grad(True))
+
+      def __getattr__(self, name):
+        return getattr(jax, name)
+    AD.jax = P()
+    return self
+
+  def __exit__(self, *a):
+    AD.jax = self.saved
+    return False
+
+
+@with_real_dicts
+def grad_values(sel, api, w0, w1, c0, k0, x0, x1):
+  """nnx.grad / value_and_grad == the hand-derived gradient of
+  loss = (w . x) * k + c0 * x0 wrt exactly the selected Variables (sel 0: default =
+  Param, 1: DiffState(BatchStat), 2: DiffState(Any(Param, BatchStat)), 3:
+  DiffState(PathContains('sub'))); forward side effects applied once"""
+  m = VM(Arr([w0, w1], (2,)), Arr([c0], (1,)), Arr([k0], (1,)))
+  m.n = Stat2(Arr([0], (1,)))
+  x = Arr([x0, x1], (2,))
+  calls = []
+
+  def loss_fn(mm, xx):
+    calls.append(1)
+    mm.n.value = mm.n.value + 1                     # side effect
+    return (mm.w.value * xx).sum() * mm.sub.k.value.at((0,)) + mm.c.value.at(
+        (0,)) * xx.at((0,))
+  argn = [0, nnx.DiffState(0, nnx.BatchStat),
+          nnx.DiffState(0, nnx.Any(nnx.Param, nnx.BatchStat)),
+          nnx.DiffState(0, nnx.PathContains('sub'))][sel]
+  with RefGradEnv():
+    if api == 0:
+      g = nnx.grad(loss_fn, argnums=argn)(m, x)
+    else:
+      val, g = nnx.value_and_grad(loss_fn, argnums=argn)(m, x)
+      if val != (w0 * x0 + w1 * x1) * k0 + c0 * x0:
+        return False
+  want = {}
+  if sel in (0, 2):
+    want[('w',)] = Arr([x0 * k0, x1 * k0], (2,))
+  if sel in (0, 2, 3):
+    want[('sub', 'k')] = Arr([w0 * x0 + w1 * x1], (1,))
+  if sel in (1, 2):
+    want[('c',)] = Arr([x0], (1,))
+  got = {p: v.value for p, v in nnx.to_flat_state(g)}
+  if set(got) != set(want):
+    return False
+  for p in want:
+    if not want[p].same(got[p]):
+      return False
+  # the forward pass ran for its side effect exactly once as far as the caller sees
+  return Arr([1], (1,)).same(m.n.value) and Arr([w0, w1], (2,)).same(m.w.value)
+
+
+class Stat2(nnx.Variable):
+  pass
+
+
 EXPLANATION = (
     'C08 slice: StateAxes.map_prefix (first matching filter) and '
     'extract.check_consistent_aliasing on the C03 graphs (+1 symbolic aliasing '
@@ -237,6 +479,7 @@ def obligations(tier):
   quick = tier == 'quick'
   nf = len(FILT) - 1
   e = dict(s0=I(0, 2), d0=I(0, 7), h0=B())
+  v3 = I(-2, 2)
   return [
       Ob('state_axes_first_match', state_axes_prefix,
          dict(nf=I(1, 2 if quick else 3), f0=I(0, nf), f1=I(0, nf), f2=I(0, nf),
@@ -251,6 +494,32 @@ def obligations(tier):
               **e), split=('second', 'f_first'), timeout=600, funcs=F,
          bounds='two arguments (second = child of the first, or separate), base '
                 'graph + 1 aliasing edge, all axis pairs'),
+      Ob('vmap_like_per_index', vmap_like_per_index,
+         dict(pa=I(0, 2), sa=I(0, 1), xa=I(0, 2), oa=I(0, 1), use_state_axes=B(),
+              x0=v3, x1=v3, x2=v3, x3=v3, x4=v3, x5=v3, w0=v3, w1=v3, c0=v3, k0=v3),
+         split=('pa', 'sa', 'xa'), timeout=600, funcs=qualnames(
+             IT.vmap, IT.VmapFn.__call__, IT._vmap_split_fn, IT.StateAxes.map_prefix,
+             extract.to_tree, extract.from_tree), per_path_timeout=60.0,
+         bounds='3 indices; Param axis 0/1/None, BatchStat axis 0/1 (StateAxes or one '
+                'int), argument axis 0/1/None, out axis 0/1, symbolic int values',
+         assumes=('jax.vmap replaced by the slice / call-per-index / stack reference '
+                  'on an int-array stand-in',)),
+      Ob('scan_like_loop', scan_like_loop,
+         dict(pa=I(0, 1), xa=I(0, 1), oa=I(0, 1), reverse=B(), carry_stat=B(), x0=v3,
+              x1=v3, x2=v3, w0=v3, w1=v3, c0=v3, k0=v3, s0=v3),
+         split=('pa', 'xa', 'reverse', 'carry_stat'), timeout=600, funcs=qualnames(
+             IT.scan, IT.ScanFn.__call__, IT._scan_split_in, IT._scan_split_out,
+             IT._scan_merge_in, IT._scan_merge_out), per_path_timeout=60.0,
+         bounds='3 steps; Param axis 0/1, BatchStat carried or sliced, argument axis '
+                '0/1, out axis 0/1, reverse, order-sensitive carry',
+         assumes=('jax.lax.scan replaced by its documented loop, jnp.moveaxis by the '
+                  'index permutation, on an int-array stand-in',)),
+      Ob('grad_values', grad_values,
+         dict(sel=I(0, 3), api=I(0, 1), w0=v3, w1=v3, c0=v3, k0=v3, x0=v3, x1=v3),
+         split=('sel', 'api'), timeout=600, funcs=F, per_path_timeout=60.0,
+         bounds='4 wrt selections x grad / value_and_grad, symbolic int values',
+         assumes=('jax.grad / value_and_grad replaced by a reference AD on symbolic '
+                  'ints (dual numbers); the oracle is the hand-derived gradient',)),
       Ob('grad_two_arguments', grad_two_arguments,
          dict(fi=I(0, nf), order=I(0, 1), x=I(-2, 2)), timeout=600, funcs=F),
       Ob('grad_wrt_routing', grad_wrt_routing,
